@@ -8,6 +8,7 @@ core.parse_docstr_examples / parse_doctestables, a process-CPU-time deadline (IT
 """
 import io
 import os
+import sys
 import signal
 import random
 import warnings
@@ -259,7 +260,8 @@ def required_cells(tier):
                                                                       'broken-shape:statement-with-want'] + \
         ['broken-syntax:' + k for k in BROKEN_SYNTAX] + ['broken-syntax-layout:google-block',
                                                          'broken-syntax-layout:google-block-after-good',
-                                                         'broken-syntax-layout:freeform']
+                                                         'broken-syntax-layout:freeform'] + \
+        ['broken-module-run:' + k for k in BROKEN_FOR_RUNNER]
 
 
 def run_case(ctx, idx, with_module):
@@ -394,12 +396,79 @@ def check_broken_syntax(ctx):
                 ctx.cell('broken-syntax-layout:' + layout)
 
 
+BROKEN_FOR_RUNNER = {
+    'unclosed-bracket': ['>>> x = (', '>>> y = 1'],
+    'braces-dict': ['>>> cfg = {1: 2,', '>>> y = 1'],
+    'braces-format': [">>> print('{}-{}'.format(1, 2)", '>>> y = 1'],
+    'braces-stray-close': ['>>> d = dict(a=1) }'],
+    'percent-signs': [">>> print('100%% of %s' % (", '>>> y = 1'],
+    'two-broken-docstrings': None,
+}
+
+
+def check_broken_module_run(ctx):
+    """the other docstrings of a module with a broken docstring are still runnable: the native runner runs them, reports the
+    parse-time warning and returns its summary, whatever characters the broken text holds"""
+    import io
+    import contextlib
+    from xdoctest import runner
+    for name, lines in sorted(BROKEN_FOR_RUNNER.items()):
+        for layout in ('google', 'freeform'):
+            for verbose in (0, 1, 3):
+                def doc(body):
+                    if layout == 'google':
+                        return ['    \"\"\"', '    Summary.', '', '    Example:'] + ['        ' + ln for ln in body] + ['    \"\"\"']
+                    return ['    \"\"\"', '    Summary.', ''] + ['    ' + ln for ln in body] + ['    \"\"\"']
+                broken = [lines] if lines is not None else [BROKEN_FOR_RUNNER['braces-dict'], BROKEN_FOR_RUNNER['braces-format']]
+                src = ['def good_a():'] + doc(['>>> print(1)', '1']) + ['    return 1', '']
+                for k, b in enumerate(broken):
+                    src += ['def broken_%d():' % k] + doc(b) + ['    return 1', '']
+                src += ['def good_b():'] + doc(['>>> print(2)', '2']) + ['    return 1', '']
+                modname = 'bm_%d_%d_%s_%s_%d_zz' % (ctx.seed, ctx.shard, name.replace('-', '_'), layout, verbose)
+                path = os.path.join(ctx.tmp, modname + '.py')
+                with open(path, 'w') as f:
+                    f.write('\n'.join(src) + '\n')
+                ctx.evaluation()
+                ctx.nontrivial(('broken-module-run', name, layout, verbose))
+                case = {'kind': 'broken-module-run', 'name': name, 'layout': layout, 'verbose': verbose}
+                buf = io.StringIO()
+                try:
+                    with warnings.catch_warnings(), contextlib.redirect_stdout(buf), contextlib.redirect_stderr(io.StringIO()):
+                        # (the runner records the warnings of the collection itself: they must reach it)
+                        warnings.simplefilter('always')
+                        rs = runner.doctest_module(path, 'all', argv=[''], verbose=verbose, style=layout)
+                except BaseException as ex:
+                    ctx.violation('module-run-raised', 'runner.doctest_module(all, verbose=%d) on a module with a broken docstring (%s, '
+                                  '%s layout) raised %s: %r\n--- module ---\n%s\n--- output (tail) ---\n%s' % (
+                                      verbose, name, layout, type(ex).__name__, ex, '\n'.join(src), buf.getvalue()[-600:]), case)
+                    continue
+                finally:
+                    try:
+                        os.unlink(path)
+                    except OSError:
+                        pass
+                    sys.modules.pop(modname, None)
+                if 'parse-time warnings' not in buf.getvalue() and verbose >= 1:
+                    ctx.violation('no-warning-reported', 'module with a broken docstring (%s, %s layout, verbose=%d): the report of the '
+                                  'run does not mention the parse-time warning\n--- output (tail) ---\n%s' % (
+                                      name, layout, verbose, buf.getvalue()[-600:]), case)
+                    continue
+                if rs.get('n_passed') != 2 or rs.get('n_failed') != 0:
+                    ctx.violation('neighbours-lost', 'module with a broken docstring (%s, %s layout): the run reports passed=%r '
+                                  'failed=%r, the two sound docstrings must pass\n--- module ---\n%s' % (
+                                      name, layout, rs.get('n_passed'), rs.get('n_failed'), '\n'.join(src)), case)
+                    continue
+                ctx.cell('broken-module-run:' + name)
+
+
 def run_shard(ctx):
     warnings.simplefilter('ignore')
     if ctx.shard == 0:
         check_broken_by_construction(ctx)
     if ctx.shard == 1 % ctx.nshards:
         check_broken_syntax(ctx)
+    if ctx.shard == 2 % ctx.nshards:
+        check_broken_module_run(ctx)
         warnings.simplefilter('ignore')
     n = ctx.pick(20000, 400000)
     nmod = ctx.pick(1500, 20000)
@@ -414,6 +483,9 @@ def replay(case, ctx):
         return
     if case.get('kind') == 'broken-syntax':
         check_broken_syntax(ctx)
+        return
+    if case.get('kind') == 'broken-module-run':
+        check_broken_module_run(ctx)
         return
     c = dict(case)
     c.pop('src', None)
